@@ -321,7 +321,7 @@ def _first_use_child(arg):
         S.step_timeout = 1.5
         status = S.run(dsched.RandomChooser(rng), max_steps=20000)
         S.kill_all()
-        if status == 'stuck':
+        if status in ('stuck', 'deadlock') or S.blocked:
             nstuck += 1                          # a real lock of the library is held by a parked thread: this schedule cannot be continued
             if nstuck > 12:
                 break
